@@ -26,6 +26,20 @@ type Gen struct {
 	MaxScope int
 	MaxItems int
 	Uniq     int // counter for unique strings
+	// Uniform > 0: every attribute map of the batch has the same shape (variant Uniform), every metric kind occurs and
+	// every data point has exemplars with attributes: sibling records (resource/scope/item/event/link/exemplar attributes)
+	// then share one Arrow schema signature
+	Uniform int
+	kind    int
+}
+
+// some returns a count in [0,n), at least 1 in uniform mode.
+func (g *Gen) some(n int) int {
+	x := g.R.Intn(n)
+	if g.Uniform > 0 && x == 0 {
+		x = 1
+	}
+	return x
 }
 
 var strs = []string{"", "a", "b", "1", "true", "x,b:y", "a|b", "{", "héllo", "0", "1.0", "[1]", "k=v", "a\"b", " "}
@@ -168,6 +182,17 @@ func deep(v pcommon.Value, d int) {
 }
 
 func (g *Gen) attrs(m pcommon.Map) {
+	if g.Uniform > 0 {
+		m.PutStr("k", pick(g.R, []string{"v", "w", "x"}))
+		if g.Uniform >= 2 {
+			m.PutInt("n", int64(g.R.Intn(3)))
+		}
+		if g.Uniform >= 3 {
+			m.PutDouble("d", 1.5)
+			m.PutBool("b", true)
+		}
+		return
+	}
 	n := g.R.Intn(4)
 	if g.Rich == 0 && g.R.Intn(2) == 0 {
 		n = 0
@@ -262,7 +287,12 @@ func (g *Gen) fieldTwinScope(a, b pcommon.InstrumentationScope) (urlDiffers bool
 
 func (g *Gen) nres() int   { return 1 + g.R.Intn(max(1, g.MaxRes)) }
 func (g *Gen) nscope() int { return g.R.Intn(max(1, g.MaxScope) + 1) }
-func (g *Gen) nitems() int { return g.R.Intn(max(1, g.MaxItems) + 1) }
+func (g *Gen) nitems() int {
+	if g.Uniform > 0 {
+		return max(5, g.MaxItems)
+	}
+	return g.R.Intn(max(1, g.MaxItems) + 1)
+}
 
 func (g *Gen) Traces() ptrace.Traces {
 	td := ptrace.NewTraces()
@@ -415,7 +445,7 @@ func (g *Gen) Logs() plog.Logs {
 }
 
 func (g *Gen) exemplars(es pmetric.ExemplarSlice) {
-	for i := g.R.Intn(3); i > 0; i-- {
+	for i := g.some(3); i > 0; i-- {
 		e := es.AppendEmpty()
 		e.SetTimestamp(g.ts())
 		switch g.R.Intn(3) {
@@ -426,7 +456,7 @@ func (g *Gen) exemplars(es pmetric.ExemplarSlice) {
 		}
 		e.SetTraceID(g.tid())
 		e.SetSpanID(g.sid())
-		if g.R.Intn(2) == 0 {
+		if g.Uniform > 0 || g.R.Intn(2) == 0 {
 			g.attrs(e.FilteredAttributes())
 		}
 	}
@@ -501,7 +531,7 @@ func (g *Gen) metric(m pmetric.Metric) {
 	m.SetDescription(g.str())
 	m.SetUnit(g.str())
 	ndp := func(s pmetric.NumberDataPointSlice) {
-		for x := g.R.Intn(3); x > 0; x-- {
+		for x := g.some(3); x > 0; x-- {
 			d := s.AppendEmpty()
 			d.SetStartTimestamp(g.ts())
 			d.SetTimestamp(g.ts())
@@ -516,7 +546,12 @@ func (g *Gen) metric(m pmetric.Metric) {
 			g.exemplars(d.Exemplars())
 		}
 	}
-	switch g.R.Intn(6) {
+	kind := g.R.Intn(6)
+	if g.Uniform > 0 {
+		kind = g.kind % 5
+		g.kind++
+	}
+	switch kind {
 	case 0:
 		ndp(m.SetEmptyGauge().DataPoints())
 	case 1:
@@ -527,7 +562,7 @@ func (g *Gen) metric(m pmetric.Metric) {
 	case 2:
 		h := m.SetEmptyHistogram()
 		h.SetAggregationTemporality(pmetric.AggregationTemporality(g.R.Intn(3)))
-		for x := g.R.Intn(3); x > 0; x-- {
+		for x := g.some(3); x > 0; x-- {
 			d := h.DataPoints().AppendEmpty()
 			d.SetStartTimestamp(g.ts())
 			d.SetTimestamp(g.ts())
@@ -552,7 +587,7 @@ func (g *Gen) metric(m pmetric.Metric) {
 	case 3:
 		h := m.SetEmptyExponentialHistogram()
 		h.SetAggregationTemporality(pmetric.AggregationTemporality(g.R.Intn(3)))
-		for x := g.R.Intn(3); x > 0; x-- {
+		for x := g.some(3); x > 0; x-- {
 			d := h.DataPoints().AppendEmpty()
 			d.SetStartTimestamp(g.ts())
 			d.SetTimestamp(g.ts())
@@ -578,7 +613,7 @@ func (g *Gen) metric(m pmetric.Metric) {
 		}
 	case 4:
 		s := m.SetEmptySummary()
-		for x := g.R.Intn(3); x > 0; x-- {
+		for x := g.some(3); x > 0; x-- {
 			d := s.DataPoints().AppendEmpty()
 			d.SetStartTimestamp(g.ts())
 			d.SetTimestamp(g.ts())
